@@ -511,22 +511,25 @@ def hist_observe(case):
             assert cfg2.key() == cfg.key()
             obs["used"][name] = _hist_parse(target, how, payload)
             ck = json.dumps([shape, spec, v, cfg.key(), name])
-            if ck not in _fresh_cache:
-                _fresh_cache[ck] = _hist_parse(hist_fresh_parser(shape, spec, cfg), how, payload)
-                parses += 1
+            if ck not in _fresh_cache:  # reference parses are shared between the cases of a worker; they are counted
+                _fresh_cache[ck] = _hist_parse(hist_fresh_parser(shape, spec, cfg), how, payload)  # once per key (parent)
             obs["fresh"][name] = _fresh_cache[ck]
             parses += 1 + sum(1 for op in history if op.startswith("use:") and op not in ("use:help", "use:defaults"))
     return obs, parses
 
 
+def _op_cat(op):
+    return op.replace("set:", "").split("=")[0]
+
+
 def hist_class(history):
-    """Class of a history by shape: uses collapse to 'use', re-configurations keep their name."""
-    out = []
-    for op in history:
-        k = "use" if op.startswith("use:") else op.replace("set:", "")
-        if not (out and out[-1] == k == "use"):
-            out.append(k)
-    return ">".join(out) or "fresh"
+    """Class of a history by shape: the kinds of re-configuration it contains (env_prefix / default_env / parser_mode /
+    as-subcommand, whatever the value), preceded by 'use>' when a use of the parser comes before the first of them."""
+    reconf = [i for i, op in enumerate(history) if not op.startswith("use:")]
+    if not reconf:
+        return "use-only" if history else "fresh"
+    cats = sorted({_op_cat(history[i]) for i in reconf})
+    return ("use>" if reconf[0] > 0 else "") + "+".join(cats)
 
 
 def hist_judge(case, obs):
@@ -559,10 +562,11 @@ def hist_judge(case, obs):
     # (2) the channels of the directly built parser among each other (configurations the main block does not build)
     rows = [(fam, obs["fresh"][name]) for name, fam, _h, _p in chans if fam is not None]
     if len({json.dumps(o) for _, o in rows}) > 1:
-        conf = "+".join(x for x, on in (("prefix=" + (cfg.prefix or "none"), cfg.prefix != c05.ENV_PREFIX), ("default_env", cfg.default_env),
-                                        ("json", cfg.mode == "json"), ("subcommand", cfg.sub)) if on) or "default"
-        devs.append({"signature": f"configuration:{conf}:{c05.sig_cat(spec)}:{c05.vclass(v)}:{_partition(rows)}",
-                     "detail": json.dumps({"observations": {n: c05._short(o) for n, o in obs["fresh"].items()}}, default=repr)[:3000]})
+        conf = "+".join(sorted({_op_cat(op) for op in history if not op.startswith("use:")})) or "default"
+        ref = obs["fresh"]["argv_eq"]
+        fams = {fam.split(".")[0] for fam, o in rows if o != ref}
+        devs.append({"signature": "configuration:%s:%s" % (conf, "+".join(f for f in c05.COARSE if f in fams)),
+                     "detail": json.dumps({"partition": _partition(rows), "observations": {n: c05._short(o) for n, o in obs["fresh"].items()}}, default=repr)[:3000]})
     return devs
 
 
@@ -726,11 +730,20 @@ def _flat(obs):
     return out
 
 
+def hist_fresh_keys(case):
+    cfg = _Cfg()
+    for op in case["history"]:
+        cfg.apply(op)
+    return [json.dumps([case["shape"], case["type"], case["value"], cfg.key(), c[0]])
+            for c in hist_final_channels(case["shape"], case["type"], case["value"], cfg, case.get("quick"))]
+
+
 def work(case):
     observe, judge = _OBSERVE[case["block"]]
     obs, parses = observe(case)
     flat = _flat(obs)
     return {
+        "fresh_keys": hist_fresh_keys(case) if case["block"] == "hist" else [],
         "case": case,
         "devs": judge(case, obs),
         "parses": parses,
